@@ -50,7 +50,7 @@ func init() {
 		ID:        "C08",
 		Technique: "runtime monitor: per-mode rule over real Parse executions (error naming the first unknown / warning on Writer / token kept in remaining) + deletion metamorphism for the surrounding known options",
 		Rule: "case = random tree (wrappers with UnsetOptions, per-command unknown modes) + argv with 1-3 unknown option tokens (long, short, bundled letters, attached values) at every position class, no `--` before them, require-order off; " +
-			"distinct = (modes, item shapes, levels); non-trivial = at least one unknown token is present and at least one known option is used",
+			"distinct = (modes, item shapes, levels); non-trivial = at least one unknown token is present and at least one known option is used" + genDims,
 		Cases: func(tier string) int { return tierN(tier, 20000, 4000000) },
 		Run: func(seed uint64, idx int, tier string) *fw.Result {
 			r := CaseRng(seed, "C08", idx)
@@ -99,7 +99,7 @@ func init() {
 			res.Events = nUnk + len(oc.Remaining) + strings.Count(oc.Writer, "\n")
 			if exp.Err && exp.ErrClass == "unknown" {
 				// the error must be an unknown-option error
-				if !strings.Contains(oc.Err, "Unknown option") {
+				if !strings.Contains(strings.ToLower(oc.Err), "unknown") {
 					doc.Got = oc
 					return viol("unknown-option rule", []string{"error is not an unknown-option error: " + oc.Err}, doc)
 				}
